@@ -34,7 +34,7 @@ def defaultTypes : List WatchEvent := ShellOp.Facts.c08DefaultEventTypes.filterM
 /-- The part of `MonitorConfig` the decision depends on. -/
 structure Cfg where
   types : List WatchEvent := defaultTypes   -- EventTypes (executeHookOnEvent)
-  filter : Option Filter := none            -- JqFilter ("" = none)
+  filter : Option Prog := none              -- JqFilter ("" = none)
   keep : Bool := true                       -- KeepFullObjectsInMemory
   deriving Inhabited
 
@@ -49,7 +49,7 @@ def project (cfg : Cfg) (obj : J) : Option J :=
 def projectUnrepaired (cfg : Cfg) (obj : J) : Option J :=
   match cfg.filter with
   | none => some obj
-  | some f => (f.eval obj).map objOnly
+  | some f => f.evalLegacy obj
 
 /-- `ObjectAndFilterResult`: checksum, stored filter result, full object (dropped unless `keep`). -/
 structure Entry (C : Type) where
